@@ -174,6 +174,7 @@ class SessionManager(GrantManager):
             sub_type: Optional[str] = "public",
             token_usage_rules: Optional[dict] = None,
             scopes: Optional[list] = None,
+            sector_identifier: Optional[str] = "",
     ) -> str:
         """
 
@@ -187,12 +188,11 @@ class SessionManager(GrantManager):
         :return:
         """
         if auth_req:
-            sector_identifier = auth_req.get("sector_identifier_uri", "")
+            sector_identifier = sector_identifier or auth_req.get("sector_identifier_uri", "")
             _claims = auth_req.get("claims", {})
             if scopes is None:
                 scopes = auth_req.get("scope")
         else:
-            sector_identifier = ""
             _claims = {}
 
         resources = []
@@ -261,6 +261,7 @@ class SessionManager(GrantManager):
             sub_type: Optional[str] = "public",
             token_usage_rules: Optional[dict] = None,
             scopes: Optional[list] = None,
+            sector_identifier: Optional[str] = "",
     ) -> str:
         """
         Create part of a user session. The parts added are user- and client
@@ -284,6 +285,7 @@ class SessionManager(GrantManager):
             sub_type=sub_type,
             token_usage_rules=token_usage_rules,
             scopes=scopes,
+            sector_identifier=sector_identifier,
         )
 
     def create_exchange_session(
